@@ -1,7 +1,7 @@
 #!/bin/sh
 # usage: tools/run_all.sh [tier] [ids...]  -- run every registered check on /repo as it is, print the verdict lines
 TIER="${1:-quick}"; shift 2>/dev/null
-IDS="${*:-C01 C02 C03 C04 C05 C06 C07 C10 C11 C12 C13 C14 C15 C16 C17 C18 C19 C20}"
+IDS="${*:-C01 C02 C03 C04 C05 C06 C07 C08 C09 C10 C11 C12 C13 C14 C15 C16 C17 C18 C19 C20}"
 cd /verif
 for p in $IDS; do
   ./check $p --tier $TIER 2>&1 | grep -E "^(VIOLATION|UNDECIDED|CHECKER-ERROR|KNOWN-FINDING|C[0-9]+ tier)" | cut -c1-220
